@@ -394,6 +394,32 @@ func (L *lruCtx) touchOf(e ssa.Value, depth int) func(ssa.Instruction) bool {
 	}
 }
 
+// isBackOfList: v is list.Back() of the recency list, or a loop variable all of whose values are such calls.
+func (L *lruCtx) isBackOfList(v ssa.Value) bool {
+	switch x := v.(type) {
+	case *ssa.Call:
+		return calleeName(&x.Call) == "(*container/list.List).Back" && path(x.Call.Args[0]).lastField() == L.list
+	case *ssa.Phi:
+		for _, e := range x.Edges {
+			if _, isPhi := e.(*ssa.Phi); isPhi || !L.isBackOfList(e) {
+				return false
+			}
+		}
+		return len(x.Edges) > 0
+	}
+	return false
+}
+
+// isEmptyListTest: a comparison of list.Back() (or a loop variable holding it) with nil — the other half of the
+// eviction loop's condition in the "walk from the back" form.
+func (L *lruCtx) isEmptyListTest(i ssa.Instruction) bool {
+	b, ok := i.(*ssa.BinOp)
+	if !ok || (b.Op != token.EQL && b.Op != token.NEQ) {
+		return false
+	}
+	return (isNilConst(b.Y) && L.isBackOfList(b.X)) || (isNilConst(b.X) && L.isBackOfList(b.Y))
+}
+
 func (L *lruCtx) touch() {
 	const rule = "C07.touch"
 	c := L.c
@@ -462,10 +488,7 @@ func (L *lruCtx) touch() {
 		c.r.bad(rule, safeFname(put)+": eviction end", "nothing is ever removed from the recency list", []string{c.w.pos(put.Pos())})
 	}
 	for k, rm := range rms {
-		okBack := false
-		if bc, ok := rm.Call.Args[1].(*ssa.Call); ok && calleeName(&bc.Call) == "(*container/list.List).Back" && path(bc.Call.Args[0]).lastField() == L.list {
-			okBack = true
-		}
+		okBack := L.isBackOfList(rm.Call.Args[1])
 		c.r.check(okBack, rule, fmt.Sprintf("%s: eviction end#%d", safeFname(put), k+1), "evicts list.Back()", "eviction does not remove the element at the back of the recency list (the least recently used one)", c.w.ipos(rm))
 	}
 }
@@ -793,6 +816,10 @@ func (L *lruCtx) account() {
 			if (cm.Op == token.LEQ && srcField(cm.X) == L.curSize && srcField(cm.Y) == L.maxSize) || (cm.Op == token.GEQ && srcField(cm.Y) == L.curSize && srcField(cm.X) == L.maxSize) {
 				return true
 			}
+			// Back() == nil: the list is empty
+			if cm.Op == token.EQL && ((isNilConst(cm.Y) && L.isBackOfList(cm.X)) || (isNilConst(cm.X) && L.isBackOfList(cm.Y))) {
+				return true
+			}
 			// Len() <= 0 / == 0
 			if call, ok := peelConv(cm.X).(*ssa.Call); ok && calleeName(&call.Call) == "(*container/list.List).Len" {
 				if k, isK := constInt(cm.Y); isK && ((cm.Op == token.LEQ && k == 0) || (cm.Op == token.EQL && k == 0) || (cm.Op == token.LSS && k == 1)) {
@@ -824,7 +851,7 @@ func (L *lruCtx) account() {
 		if from == nil {
 			continue // an increase outside Put's call tree (none today)
 		}
-		if p := c.fc.pathAvoiding(put, from, func(i ssa.Instruction) bool { _, ok := i.(*ssa.Return); return ok }, c.fc.ipAvoid(func(i ssa.Instruction) bool { return i == ssa.Instruction(cmpI) })); p != nil {
+		if p := c.fc.pathAvoiding(put, from, func(i ssa.Instruction) bool { _, ok := i.(*ssa.Return); return ok }, c.fc.ipAvoid(func(i ssa.Instruction) bool { return i == ssa.Instruction(cmpI) || L.isEmptyListTest(i) })); p != nil {
 			c.r.bad(rule, fmt.Sprintf("%s: increase#%d reaches eviction", safeFname(put), k+1), "after increasing the byte counter Put can return without running the eviction loop: the cache stays over its bound", []string{c.w.ipos(u.st)}, c.fc.witnessStrings(p)...)
 		} else {
 			c.r.ok(rule, fmt.Sprintf("%s: increase#%d reaches eviction", safeFname(put), k+1), "followed by the eviction loop on every path", c.w.ipos(u.st))
